@@ -373,21 +373,24 @@ Check strvec_entry_roundtrip :
 Print Assumptions strvec_entry_roundtrip.
 
 (* strvec_refines_spec: for every sorting routine that returns a permutation of its input and every history of
-   push_str/get/len/iter/clear/sort_lexicographic/sort_by_length/sort_by(f)/get_sorted/iter_sorted, the arena +
-   packed-entry model never panics (no slice or index out of range) and returns exactly what a Vec of strings
-   with an index vector returns - Err exactly for a string longer than 2^20-1 bytes or an arena beyond 2^40-1
-   bytes - and ends related to it (arena = concatenation, entries = layout, index vector a permutation) *)
+   push_str/get/len/iter/clear/sort_lexicographic/sort_by_length/sort_by(f)/radix_sort/get_sorted/iter_sorted whose
+   pushed strings are byte strings, the arena + packed-entry model never panics (no slice or index out of range) and
+   returns exactly what a Vec of strings with an index vector returns - Err exactly for a string longer than 2^20-1
+   bytes or an arena beyond 2^40-1 bytes - and ends related to it (arena = concatenation, entries = layout, index
+   vector a permutation) *)
 Theorem strvec_refines_spec :
   forall usort : forall T : Type, (T -> T -> comparison) -> list T -> list T,
   (forall T c l, Permutation l (usort T c l)) ->
-  forall ops, exists v', ssv_run usort ssv_new ops = Done (v', snd (svs_run usort svs_new ops)) /\
-                         SV v' (fst (svs_run usort svs_new ops)).
+  forall ops, Forall sop_wf ops ->
+  exists v', ssv_run usort ssv_new ops = Done (v', snd (svs_run usort svs_new ops)) /\
+             SV v' (fst (svs_run usort svs_new ops)).
 Proof. exact ProofsStrVec.strvec_refines_spec_proof. Qed.
 Check strvec_refines_spec :
   forall usort : forall T : Type, (T -> T -> comparison) -> list T -> list T,
   (forall T c l, Permutation l (usort T c l)) ->
-  forall ops, exists v', ssv_run usort ssv_new ops = Done (v', snd (svs_run usort svs_new ops)) /\
-                         SV v' (fst (svs_run usort svs_new ops)).
+  forall ops, Forall sop_wf ops ->
+  exists v', ssv_run usort ssv_new ops = Done (v', snd (svs_run usort svs_new ops)) /\
+             SV v' (fst (svs_run usort svs_new ops)).
 Print Assumptions strvec_refines_spec.
 
 (* strvec_get_pushes: every push history whose strings fit the length field and whose total fits the offset field is
@@ -397,7 +400,7 @@ Theorem strvec_get_pushes :
   forall usort : forall T : Type, (T -> T -> comparison) -> list T -> list T,
   (forall T c l, Permutation l (usort T c l)) ->
   forall (ss : list bytes) i,
-  Forall (fun s => nlen s <= SSV_MAX_LENGTH) ss -> total_len ss <= SSV_MAX_OFFSET ->
+  Forall bytes_ok ss -> Forall (fun s => nlen s <= SSV_MAX_LENGTH) ss -> total_len ss <= SSV_MAX_OFFSET ->
   exists v', ssv_run usort ssv_new (map SPush ss) = Done (v', map (fun k => OId (N.of_nat k)) (seq 0 (length ss))) /\
              ssv_get v' i = Done (nth_error ss (N.to_nat i)) /\
              ssv_iter v' = Done ss.
@@ -406,7 +409,7 @@ Check strvec_get_pushes :
   forall usort : forall T : Type, (T -> T -> comparison) -> list T -> list T,
   (forall T c l, Permutation l (usort T c l)) ->
   forall (ss : list bytes) i,
-  Forall (fun s => nlen s <= SSV_MAX_LENGTH) ss -> total_len ss <= SSV_MAX_OFFSET ->
+  Forall bytes_ok ss -> Forall (fun s => nlen s <= SSV_MAX_LENGTH) ss -> total_len ss <= SSV_MAX_OFFSET ->
   exists v', ssv_run usort ssv_new (map SPush ss) = Done (v', map (fun k => OId (N.of_nat k)) (seq 0 (length ss))) /\
              ssv_get v' i = Done (nth_error ss (N.to_nat i)) /\
              ssv_iter v' = Done ss.
@@ -503,6 +506,36 @@ Check strvec_sort_by_length_is_sorted_perm :
     ssv_iter_sorted v' = Done view /\
     Permutation view (sl st) /\ StronglySorted (fun a b => nlen a <= nlen b) view.
 Print Assumptions strvec_sort_by_length_is_sorted_perm.
+
+(* radix_sort (MSD radix: ended strings first, then the buckets of byte value 0..255 in order, each sorted recursively
+   one byte deeper; fewer than 32 items are handed to the comparison sort on the remaining suffixes; the index vector of
+   a previous sort is re-used): never panics, leaves the strings untouched, and the sorted view is the same
+   lexicographically sorted permutation that sort_lexicographic produces - for strings of any length (the recursion
+   depth is bounded by the longest string) *)
+Theorem strvec_radix_sort_is_sorted_perm :
+  forall usort : forall T : Type, (T -> T -> comparison) -> list T -> list T,
+  (forall T c l, Permutation l (usort T c l)) ->
+  (forall T c l, total_preorder c -> StronglySorted (fun a b => c a b <> Gt) (usort T c l)) ->
+  forall v st, SV v st ->
+  exists v' view,
+    ssv_radix_sort usort v = Done v' /\
+    SV v' {| sl := sl st; sx := sidx v'; ssorted := true |} /\
+    ssv_iter_sorted v' = Done view /\
+    Permutation view (sl st) /\ StronglySorted lex_le view /\
+    view = isort_by _ lex_cmp (sl st).
+Proof. exact ProofsStrVec.strvec_radix_sort_proof. Qed.
+Check strvec_radix_sort_is_sorted_perm :
+  forall usort : forall T : Type, (T -> T -> comparison) -> list T -> list T,
+  (forall T c l, Permutation l (usort T c l)) ->
+  (forall T c l, total_preorder c -> StronglySorted (fun a b => c a b <> Gt) (usort T c l)) ->
+  forall v st, SV v st ->
+  exists v' view,
+    ssv_radix_sort usort v = Done v' /\
+    SV v' {| sl := sl st; sx := sidx v'; ssorted := true |} /\
+    ssv_iter_sorted v' = Done view /\
+    Permutation view (sl st) /\ StronglySorted lex_le view /\
+    view = isort_by _ lex_cmp (sl st).
+Print Assumptions strvec_radix_sort_is_sorted_perm.
 
 (* fixed finding (commit 1a81140): without the check of the length field a string of 2^20 bytes is accepted, its
    length overflows into the sequence-id bits and get() returns the empty string; with the check it is refused *)
